@@ -64,6 +64,14 @@ def run(ctx: Ctx) -> None:
     rep.rule("C07.R13", "as C09.R17: while an evaluation runs, a path that another process re-points is still read under the key resolved at the start (no result is stored under "
                         "the key of other inputs)")
     load_uses_resolved_keys(ctx, "C07.R13")
+    from .common import share_rules
+    share_rules(ctx, "C06", "C07.R15", ["C06.R3"], "a name that readers test is published only when its content is complete: the rename of the metadata (the commit marker) is dominated by "
+                "the completion of its write (a reader between the two sees has_blob true and an empty marker)")
+    from .c09 import load_uses_normalised_path as _lunp
+    rep.rule("C07.R16", "as C09.R12: load looks the snapshot of the evaluation up with the normalised path: a miss makes it resolve the path again from the store while the function runs "
+                        "(another process may have re-pointed it: the result is stored under the key of the old content)")
+    n16 = _lunp(ctx, "C07.R16")
+    rep.floor("C07.R16", n16, 1)
     rep.rule("C07.R14", "a reader that arrives between two publications of a writer is told 'absent': fetch_blob opens the metadata / the blob, and fetch_paths resolves a link, only "
                         "under conditions that imply that this very name exists")
     n14 = S.reads_after_presence(ctx, v, "C07.R14")
